@@ -62,6 +62,19 @@ impl<F: PrimeField> RecSponge<F> {
             })
             .collect()
     }
+    /// squeeze events from index `from` as tokens: F <count> <values..> | B <count> <bytes..>  (for models that thread the tape)
+    pub fn sq_events(&self, from: usize) -> Vec<String> {
+        let mut out = vec![];
+        for e in &self.log[from..] {
+            match e {
+                Ev::SqField(_, v) => { out.push("F".to_string()); out.push(v.len().to_string()); out.extend(v.iter().cloned()); }
+                Ev::SqBytes(_, b) => { out.push("B".to_string()); out.push(b.len().to_string()); out.extend(b.iter().map(|x| x.to_string())); }
+                _ => {}
+            }
+        }
+        if out.is_empty() { out.push("-".to_string()); }
+        out
+    }
     /// squeezed field challenges (flattened) from index `from`
     pub fn challenges(&self, from: usize) -> Vec<String> {
         let mut out = vec![];
